@@ -15,11 +15,13 @@ import (
 var vfPeerRoutes = map[netip.Addr]bool{}
 
 func vfRTAddRoute(rt *m.RoutingTable, e m.RoutingTableEntry) (bool, error) {
+	vf.Event("rt.op")
 	vfPeerRoutes[e.DstIP] = true
 	return true, nil
 }
 
 func vfRTRemoveNextHop(rt *m.RoutingTable, ip netip.Addr) int {
+	vf.Event("rt.op")
 	delete(vfPeerRoutes, ip)
 	return 1
 }
@@ -135,5 +137,7 @@ func VfC16Churn() {
 		}
 		vfCheckJ(p, ls)
 	}
+	// the steps above are atomic only if registry and peer routes change together under linksLock
+	vf.Assert(vf.HeldDuring(&p.linksLock, "rt.op"), "peer-route-changed-outside-registry-lock")
 	vf.Reach("done")
 }
